@@ -312,6 +312,19 @@ Theorem C16_rs256_unknown_key_rejected :
 Proof. exact rs256_unknown_key_rejected. Qed.
 Print Assumptions C16_rs256_unknown_key_rejected.
 
+(** In particular a token whose header has no key id (absent or empty) is
+    rejected when no key is registered under the empty id: the lookup is exact,
+    it never falls back to another key of the identity. *)
+Theorem C16_rs256_empty_kid_rejected :
+  forall parse_header parse_claims M RK (parse_key : M -> option RK) rsa_verify
+         (card : list (@pubkey M)) now tok t,
+  decode parse_header parse_claims b64_decode_canon tok = JOk t ->
+  h_kid (t_header t) = [] ->
+  Forall (fun k' => pk_id k' <> []) card ->
+  is_err (rs_verify parse_header parse_claims b64_decode_canon parse_key rsa_verify card now tok).
+Proof. exact rs256_empty_kid_rejected. Qed.
+Print Assumptions C16_rs256_empty_kid_rejected.
+
 Theorem C16_rs256_expired_key_rejected :
   forall parse_header parse_claims M RK (parse_key : M -> option RK) rsa_verify
          (card : list (@pubkey M)) now tok t k,
@@ -447,6 +460,20 @@ Example C16_jwt_defect_and_repair :
   removelast tok ++ [66]%N <> tok /\
   is_ok (hs_verify toy_mac ph pc b64_decode_canon 7%N pin (101 * sec_ns) tok) = false.
 Proof. vm_compute. repeat split; try reflexivity; discriminate. Qed.
+
+(** Key lookup on a two-key card: the empty id and an unregistered id name no
+    key (even though the last key would verify the signature); a registered id
+    names its own key. *)
+Example C16_key_lookup_exact :
+  let card := [mkPK [102; 105]%N key_type_rsa alg_rs256 100 0 (true, false);
+               mkPK [108; 97]%N key_type_rsa alg_rs256 100 0 (true, true)] in
+  find_key card [] = None /\ find_key card [98]%N = None /\
+  option_map (@pk_mat _) (find_key card [108; 97]%N) = Some (true, true) /\
+  rs_verifier (fun m : bool * bool => if fst m then Some (snd m) else None) (fun rk _ _ => rk) card
+    (mkT (mkH alg_rs256 typ_jwt []) (mkC [] [] [] 100 0 [] []) [] []) 5 = Some ENoKey /\
+  rs_verifier (fun m : bool * bool => if fst m then Some (snd m) else None) (fun rk _ _ => rk) card
+    (mkT (mkH alg_rs256 typ_jwt [108; 97]%N) (mkC [] [] [] 100 0 [] []) [] []) 5 = None.
+Proof. vm_compute. repeat split. Qed.
 
 (** Session and time-token boundaries on a concrete instance. *)
 Example C16_session_boundary :
